@@ -706,3 +706,24 @@ End UdpRelease.
 Lemma ex_gap : u_q (u_run [UArrive 0 [1]; UArrive 2 [3]; UArrive 3 [4]; UClose; UArrive 1 [2]]) = [[1]]
   /\ u_q (u_run [UArrive 0 [1]; UArrive 2 [3]; UArrive 3 [4]; UArrive 1 [2]; UClose]) = [[1]; [2]; [3]; [4]].
 Proof. vm_compute. split; reflexivity. Qed.
+
+(* ------------------------------------------------------------------ a refused (reflected) datagram is NOT "as if lost" *)
+(* the client's own data datagram (same key, same session id) between two genuine server datagrams *)
+Definition ex_sent3 : list (list N * segment) := [(ex_n0, ex_u); (nonce_inc ex_n0, ex_s3); (ex_cn0, ex_c2)].
+Definition ex_uopen3 := tab_open (udp_tab meta_marshal_c le_len_id ex_sent3).
+Definition ex_dg (n : list N) (s : segment) : list N := udp_encode toy_seal meta_marshal_c le_len_id le_encode_id n s.
+Definition ex_recv3 (ds : list (list N)) : list rseg := udp_recv_all ex_uopen3 (meta_parse_c ex_now) le_decode_id ds.
+
+Theorem udp_reflection_closes_session_refuted :
+  exists (op : list N -> list N -> option (list N)) (pm : list N -> option minfo)
+         (ld : leparams -> N -> list N -> option (list N)) (client : bool) (sid : N)
+         (ds1 : list (list N)) (d : list N) (ds2 : list (list N)) (r : rseg),
+    udp_parse op pm ld d = Some r /\ own_side client (mi_proto (fst r)) = true /\ mi_sid (fst r) = sid /\
+    session_in client sid (udp_recv_all op pm ld (ds1 ++ d :: ds2)) <>
+    session_in client sid (udp_recv_all op pm ld (ds1 ++ ds2)).
+Proof.
+  exists ex_uopen3, (meta_parse_c ex_now), le_decode_id, true, 77,
+         [ex_dg ex_n0 ex_u], (ex_dg ex_cn0 ex_c2), [ex_dg (nonce_inc ex_n0) ex_s3], (ex_deliver ex_c2).
+  split; [vm_compute; reflexivity|]. split; [reflexivity|]. split; [reflexivity|].
+  vm_compute. discriminate.
+Qed.
